@@ -40,6 +40,13 @@ def nat : P Nat := do
   | some n => pure n
   | none => throw s!"expected number, got {t}"
 
+/-- a decimal integer, possibly negative (white-box counters can go below zero in a broken implementation) -/
+def int : P Int := do
+  let t ← tok
+  match t.toInt? with
+  | some n => pure n
+  | none => throw s!"expected integer, got {t}"
+
 def bytes : P Bytes := do
   let t ← tok
   match t.toList with
